@@ -196,8 +196,9 @@ CLAIMED["C03"] = dict(
          "multiplicity 1,2 built under random unit contexts, and by the oracle: independent Frenkel reference element by element, band "
          "sizes and RWA indices, relabelling + unit-context invariance of spectrum, site and exciton dipole strengths, and the "
          "point-dipole formula in Debye/Angstrom from SI constants (float, whole-number and integer positions, several eps_r). "
-         "Partial: completeness / absence of duplicates of the signature list is checked exhaustively per size against "
-         "itertools.combinations, not yet proved for all N; the numerical value of eps0_int is compared, not derived.",
+         "The list of electronic states holds EVERY 0/1 signature with at most `mult` excitations, each exactly once, for "
+         "every N and mult (elsigs_complete_nodup: bandSigs_complete by removing the last excitation, bandItems_nodup because "
+         "the last-added index is the largest excited position). Partial: the numerical value of eps0_int is compared, not derived.",
     note="Lean kernel + standard axioms; hand model validated on generated inputs; three-level molecules are outside the claim.",
     technique="Lean 4 induction over the signature generator + element-rule case analysis + exact correspondence and Frenkel reference",
     ref="DESIGN.md §5 C03")
